@@ -1074,6 +1074,7 @@ public:
 	const char* GetBlockName() override { return BlockName; }
 
 	void Sync(NiStreamReversible& stream);
+	void GetPtrs(std::set<NiPtr*>& ptrs) override;
 };
 
 class bhkBallAndSocketConstraint : public NiCloneableStreamable<bhkBallAndSocketConstraint, bhkConstraint> {
